@@ -1151,6 +1151,15 @@ def alloc_check(pid, tier, seed):
             else:
                 bs = casegen.encode(env, m, casegen.CANON)
             inputs.append((d, casegen.hexs(bs)))
+        # a required field (without default) left out, the highest-numbered ones first: the arrays of the repeated fields before it
+        # have been allocated when the parser notices
+        reqs = [(md.idx, f.id) for md in env.msgs for f in md.fields if f.label == 'REQ' and f.default is None]
+        reqs.sort(key=lambda q: -[f.id for f in env.msgs[q[0]].fields].index(q[1]))
+        for drop in reqs[:6 if tier == 'quick' else 20]:
+            for d in [drop[0]] + [rnd.randrange(len(env.msgs))]:
+                m = casegen.gen_msg(rnd, env, d, canon=True)
+                if casegen.contains_type(env, m, drop[0]):
+                    inputs.append((d, casegen.hexs(casegen.encode(env, m, casegen.Opts(rnd, drop=drop, shuffle=rnd.random() < 0.3)))))
         # systematically: a selected oneof member released, then the replacing member rejected (every ordered pair of members)
         for d, bs in casegen.oneof_replacement_failures(rnd, env, 12 if tier == 'quick' else 40):
             inputs.append((d, casegen.hexs(bs)))
